@@ -327,7 +327,7 @@ func c17Corpus(entry string, rng *rand.Rand) [][]byte {
 	return nil
 }
 
-var c17Boundary = []uint64{0, 1, 0x7F, 0x80, 0xFF, 0xFFFF, 0x7FFFFFFF, 0xFFFFFFFF}
+var c17Boundary = []uint64{0, 1, 0x7F, 0x80, 0xFF, 0xFFFD, 0xFFFE, 0xFFFF, 0x7FFFFFFF, 0xFFFFFFFE, 0xFFFFFFFF}
 
 // c17Mutants enumerates the mutants of one valid encoding.
 func c17Mutants(valid []byte, mut string, rng *rand.Rand, budget int, f func(in []byte, label string) bool) {
@@ -378,6 +378,30 @@ func c17Mutants(valid []byte, mut string, rng *rand.Rand, budget int, f func(in 
 						return
 					}
 					if !f(m, fmt.Sprintf("field@%d/w%d=%#x", off, w, v)) {
+						return
+					}
+				}
+			}
+		}
+	case "field2":
+		// two fields at once: a forged leading count together with every later 16-bit window at a boundary value
+		cnt := 0
+		for _, c := range []uint32{0xFFFFFFFF, 0x7FFFFFFF, 0x10000} {
+			for off := 4; off+2 <= n && off < 200; off++ {
+				for _, v := range c17Boundary {
+					if v > 0xFFFF {
+						continue
+					}
+					m := append([]byte(nil), valid...)
+					if n >= 4 {
+						binary.BigEndian.PutUint32(m, c)
+					}
+					binary.BigEndian.PutUint16(m[off:], uint16(v))
+					cnt++
+					if budget > 0 && cnt > budget {
+						return
+					}
+					if !f(m, fmt.Sprintf("field2:count=%#x,@%d=%#x", c, off, v)) {
 						return
 					}
 				}
@@ -444,7 +468,33 @@ func c17Run(c *fw.Case, env *fw.Env) *fw.Obs {
 		var ret int
 		var reads int64
 		var err error
-		pn := fw.Catch(func() { ret, reads, err = entry(in) })
+		var pn string
+		// work out of proportion: a decoder normally needs microseconds for these inputs (all far below 1 MiB).
+		// A call that is still running after 8 s is re-timed once on its own; only if it again needs more than
+		// 8 s (a factor of about 10^6 over normal) is it reported. No verdict rests on a single timing.
+		slow := func() (finished bool) {
+			done := make(chan struct{})
+			go func() {
+				defer close(done)
+				pn = fw.Catch(func() { ret, reads, err = entry(in) })
+			}()
+			select {
+			case <-done:
+				return true
+			case <-time.After(8 * time.Second):
+			}
+			select {
+			case <-done:
+			case <-time.After(150 * time.Second):
+			}
+			return false
+		}
+		if !slow() {
+			if !slow() {
+				o.Violate("work-out-of-proportion/"+p.Entry, "%s: the decoder needed more than 8 s (twice) for a %d-byte input %x…", label, len(in), head(in, 48))
+				return false
+			}
+		}
 		runtime.ReadMemStats(&ms)
 		alloc := int64(ms.TotalAlloc - before)
 		o.Ev("oracle_evaluations", 1)
@@ -562,14 +612,38 @@ func c17Receive(c *fw.Case, env *fw.Env, o *fw.Obs, p *c17Params) *fw.Obs {
 		runtime.ReadMemStats(&ms)
 		before := ms.TotalAlloc
 		var rerr error
-		pn := fw.Catch(func() {
-			pr, err := packfile.NewPackfileReader(io.NopCloser(bytes.NewReader(in)))
-			if err != nil {
-				rerr = err
-				return
+		var pn string
+		attempt := func() bool {
+			done := make(chan struct{})
+			go func() {
+				defer close(done)
+				pn = fw.Catch(func() {
+					pr, err := packfile.NewPackfileReader(io.NopCloser(bytes.NewReader(in)))
+					if err != nil {
+						rerr = err
+						return
+					}
+					_, rerr = apiutils.NewObjectReceiver(dst, expected, logr.Discard()).Receive(pr, nil)
+				})
+			}()
+			select {
+			case <-done:
+				return true
+			case <-time.After(8 * time.Second):
 			}
-			_, rerr = apiutils.NewObjectReceiver(dst, expected, logr.Discard()).Receive(pr, nil)
-		})
+			select {
+			case <-done:
+			case <-time.After(150 * time.Second):
+			}
+			return false
+		}
+		if !attempt() {
+			dst = mon.NewMemStore()
+			if !attempt() {
+				o.Violate("work-out-of-proportion/receive", "%s: Receive needed more than 8 s (twice) for a %d-byte packfile", label, len(in))
+				return false
+			}
+		}
 		runtime.ReadMemStats(&ms)
 		alloc := int64(ms.TotalAlloc - before)
 		o.Ev("oracle_evaluations", 1)
@@ -739,6 +813,17 @@ func init() {
 			l.Add("fixed", c17Params{Entry: "get-block", Mut: "fixed", Fixed: []byte{0xFF, 0xFF, 0xFF, 0xFF, 0x0F, 0x00, 0x00}}, 22)
 			l.Add("fixed", c17Params{Entry: "uintlist", Mut: "fixed", Fixed: u32(0xFFFFFFFF)}, 23)
 			budget := l.N(600, 12000)
+			for _, e := range []string{"validate-strlist", "validate-block", "strlist-read", "strlist-readbytes", "block", "uintlist", "get-tableindex"} {
+				for corpus := 0; corpus < 3; corpus++ {
+					l.Add(e, c17Params{Entry: e, Corpus: corpus, Mut: "field2", Budget: budget}, 0)
+				}
+			}
+			// a block whose only row claims 2^32-1 cells of length 0xFFFE / 0xFFFF (nothing of it is there)
+			for i, lp := range []uint16{0xFFFD, 0xFFFE, 0xFFFF} {
+				row := append(u32(0xFFFFFFFF), byte(lp>>8), byte(lp), byte(lp>>8), byte(lp), byte(lp>>8), byte(lp))
+				l.Add("fixed", c17Params{Entry: "validate-strlist", Mut: "fixed", Fixed: row}, int64(30+i))
+				l.Add("fixed", c17Params{Entry: "validate-block", Mut: "fixed", Fixed: append(u32(1), row...)}, int64(40+i))
+			}
 			for _, e := range entries {
 				for corpus := 0; corpus < 3; corpus++ {
 					for _, m := range []string{"truncate", "bitflip", "field", "splice"} {
